@@ -236,7 +236,7 @@ def _alias_case(row, build, rng, cid):
             prop.set_state(snaps[(src, k)][0])
             lines.append('load %d %d %d' % (s, src, k))
             expect.append('ok load')
-        elif kind == 'reset' and row.get('adaptive') and prop.nsteps >= 1:
+        elif kind == 'reset' and row.get('adaptive'):
             prop._reset_adaptation()
             lines.append('reset %d' % s)
             expect.append('ok reset')
